@@ -213,10 +213,11 @@ func (c39Store) observe(path string) (*c39Model, error) {
 		return nil, fmt.Errorf("list bookmarks: %w", err)
 	}
 	for _, bm := range bms {
-		m.BM = append(m.BM, bmEntry{Title: bm.Title, Page: bm.PageFrom})
+		t := bm.Title
 		if len(bm.Kids) > 0 {
-			return nil, fmt.Errorf("bookmark %q has kids, none were set", bm.Title)
+			t += "{+kids}" // never set by a step: shows as a mismatch where bookmarks are observed at all
 		}
+		m.BM = append(m.BM, bmEntry{Title: t, Page: bm.PageFrom})
 	}
 	listed, err := api.Attachments(bytes.NewReader(b), dsConf())
 	if err != nil {
